@@ -502,10 +502,29 @@ func c20Windows(c *Ctx) {
 	p, r := c.P, c.R
 	const limit = 16 * 1024 // the entry limit of the property statement
 	posConsts := func(fn *ssa.Function) (gt, sub []int64, mk []int64, phiConsts []int64) {
-		if len(fn.Params) < 2 {
+		// the position: the one value that is both compared with a constant and reduced by a constant
+		var pos ssa.Value
+		for _, b := range fn.Blocks {
+			for _, in := range b.Instrs {
+				x, ok := in.(*ssa.BinOp)
+				if !ok || x.Op != token.SUB {
+					continue
+				}
+				if _, isC := x.X.(*ssa.Const); isC {
+					continue
+				}
+				if k, isC := core.ConstInt(x.Y); !isC || k <= 1 {
+					continue
+				}
+				if pos != nil && pos != x.X {
+					return // two candidates: nothing is reported as found, which fails the rule
+				}
+				pos = x.X
+			}
+		}
+		if pos == nil {
 			return
 		}
-		pos := fn.Params[1]
 		for _, b := range fn.Blocks {
 			for _, in := range b.Instrs {
 				switch x := in.(type) {
@@ -547,8 +566,15 @@ func c20Windows(c *Ctx) {
 						}
 					}
 				case *ssa.Phi:
+					// the position relative to the window: the position itself, or a constant
+					rel := false
 					for _, e := range x.Edges {
-						if k, ok := core.ConstInt(e); ok && k > 1 {
+						if e == pos {
+							rel = true
+						}
+					}
+					for _, e := range x.Edges {
+						if k, ok := core.ConstInt(e); ok && k > 1 && rel {
 							phiConsts = append(phiConsts, k)
 						}
 					}
